@@ -13,6 +13,7 @@
 #include <common/vh_lafem.hpp>
 #include <kernel/lafem/none_filter.hpp>
 #include <kernel/lafem/unit_filter.hpp>
+#include <kernel/lafem/transfer.hpp>
 #include <kernel/solver/base.hpp>
 #include <kernel/solver/multigrid.hpp>
 #include <kernel/util/statistics.hpp>
@@ -246,12 +247,43 @@ namespace c09
     bool rest_send(const Vec&) const { lg->bad.push_back("rest_send called on a non-ghost transfer, level " + std::to_string(level)); return false; }
   };
 
-  // ---------------------------------------------------------------- the FEAT objects of one hierarchy
-  template<typename Filter_>
-  class PeekHier : public FEAT::Solver::MultiGridHierarchy<Mat, Filter_, LogTransfer>
+  // transfer operator of the 'history' families: the REAL LAFEM::Transfer (code under test) built from the generator-owned
+  // P / R, wrapped so that every call is logged (input before, output after the call) exactly like LogTransfer does
+  class RealTransfer
   {
   public:
-    typedef FEAT::Solver::MultiGridHierarchy<Mat, Filter_, LogTransfer> Base;
+    Logger* lg; int level; const HMat* P; const HMat* R;
+    FEAT::LAFEM::Transfer<Mat> xf;
+    RealTransfer(Logger* l, int lvl, const HMat* p, const HMat* r) :
+      lg(l), level(lvl), P(p), R(r), xf(vl::make_csr<double, Index>(p->spec()), vl::make_csr<double, Index>(r->spec())) {}
+    bool is_ghost() const { return xf.is_ghost(); }
+    bool prol(Vec& fine, const Vec& coarse) const
+    {
+      ObsEv& e = lg->add(K_PROL, level, -1, coarse);
+      if(coarse.size() != P->c || fine.size() != P->r) { lg->bad.push_back("size mismatch in p" + std::to_string(level)); return false; }
+      if(lg->rec && lg->peek) lg->peek(level, &e.sol_before, &e.rhs_lvl);
+      const bool ok = xf.prol(fine, coarse);
+      if(lg->rec) { e.out = read_vec(fine); lg->pending = int(lg->ev.size()) - 1; }
+      return ok;
+    }
+    bool rest(const Vec& fine, Vec& coarse) const
+    {
+      ObsEv& e = lg->add(K_REST, level, -1, fine);
+      if(coarse.size() != R->r || fine.size() != R->c) { lg->bad.push_back("size mismatch in r" + std::to_string(level)); return false; }
+      const bool ok = xf.rest(fine, coarse);
+      if(lg->rec) e.out = read_vec(coarse);
+      return ok;
+    }
+    bool prol_recv(Vec&) const { lg->bad.push_back("prol_recv called on a non-ghost transfer, level " + std::to_string(level)); return false; }
+    bool rest_send(const Vec&) const { lg->bad.push_back("rest_send called on a non-ghost transfer, level " + std::to_string(level)); return false; }
+  };
+
+  // ---------------------------------------------------------------- the FEAT objects of one hierarchy
+  template<typename Filter_, typename Transfer_ = LogTransfer>
+  class PeekHier : public FEAT::Solver::MultiGridHierarchy<Mat, Filter_, Transfer_>
+  {
+  public:
+    typedef FEAT::Solver::MultiGridHierarchy<Mat, Filter_, Transfer_> Base;
     explicit PeekHier(std::size_t nv) : Base(nv) {}
     // read-only observation of the level work vectors (omega monitor)
     void peek(int level, std::vector<double>* sol, std::vector<double>* rhs)
@@ -274,16 +306,16 @@ namespace c09
   inline FEAT::Solver::MultiGridAdaptCGC feat_cgc(int c)
   { return c == CGC_FIXED ? FEAT::Solver::MultiGridAdaptCGC::Fixed : (c == CGC_ENERGY ? FEAT::Solver::MultiGridAdaptCGC::MinEnergy : FEAT::Solver::MultiGridAdaptCGC::MinDefect); }
 
-  template<typename Filter_>
+  template<typename Filter_, typename Transfer_ = LogTransfer>
   struct Rig
   {
-    typedef PeekHier<Filter_> Hier;
+    typedef PeekHier<Filter_, Transfer_> Hier;
     typedef typename Hier::Base HierBase;
-    typedef FEAT::Solver::MultiGrid<Mat, Filter_, LogTransfer> MG;
+    typedef FEAT::Solver::MultiGrid<Mat, Filter_, Transfer_> MG;
     Logger lg;
     std::deque<Mat> mats;
     std::deque<Filter_> filts;
-    std::deque<LogTransfer> trans;
+    std::deque<Transfer_> trans;
     std::vector<std::array<std::shared_ptr<LogSolver>, 4>> solv;
     std::shared_ptr<Hier> hier;
     std::shared_ptr<MG> mg;
@@ -349,7 +381,20 @@ namespace c09
     // rounding model: relative part (eta x the section-4 magnitude of the operation) + absolute floor (quantities that are
     // exactly zero in exact arithmetic are rounding noise of size ~u x scale in the code under test)
     LD floor_abs = 0;
-    void noise(LV& z, const LV& mag) { if(eta == 0) return; for(std::size_t i = 0; i < z.size(); ++i) z[i] += eta * (LD)rng.real(-1.0, 1.0) * mag[i] + floor_abs * (LD)rng.real(-1.0, 1.0); }
+    // 'history' families only (both default to false = the behaviour of the original families):
+    // exact_zeros: an operation all of whose terms are exactly zero (mag == 0) is exact in IEEE arithmetic -> no noise, no floor
+    // exact_first_rest: generator guarantee that the first restriction from the top level is evaluated exactly (R*def == 0
+    //   with exactly representable products and partial sums in any summation order) -> that product carries no noise
+    bool exact_zeros = false, exact_first_rest = false, first_rest_done = false;
+    void noise(LV& z, const LV& mag)
+    {
+      if(eta == 0) return;
+      for(std::size_t i = 0; i < z.size(); ++i)
+      {
+        if(exact_zeros && mag[i] == 0) continue;
+        z[i] += eta * (LD)rng.real(-1.0, 1.0) * mag[i] + floor_abs * (LD)rng.real(-1.0, 1.0);
+      }
+    }
     void noise1(LD& z, LD mag) { if(eta != 0) z += eta * (LD)rng.real(-1.0, 1.0) * mag; }
     void filt(int l, LV& z) const { for(Index i : lv(l).fidx) z[i] = 0; }
     void emit(int kind, int l, int obj, const LV& in)
@@ -432,7 +477,12 @@ namespace c09
     {
       const std::size_t z = std::size_t(l);
       emit(K_REST, l, -1, def[z]);
-      { LV m; lv(l).R.mul(def[z], rhs[z + 1], &m); noise(rhs[z + 1], m); filt(l + 1, rhs[z + 1]); }
+      {
+        LV m; lv(l).R.mul(def[z], rhs[z + 1], &m);
+        if(!(exact_first_rest && l == top && !first_rest_done)) noise(rhs[z + 1], m);
+        first_rest_done = true;
+        filt(l + 1, rhs[z + 1]);
+      }
       visit(l + 1, child_shape);
       emit(K_PROL, l, -1, sol[z + 1]);
       LV c, m; lv(l).P.mul(sol[z + 1], c, &m); noise(c, m); filt(l, c);
@@ -464,7 +514,7 @@ namespace c09
     }
     LV run(const std::vector<double>& d)
     {
-      ev.clear(); omegas.clear(); maxnorm = 0;
+      ev.clear(); omegas.clear(); maxnorm = 0; first_rest_done = false;
       rhs[std::size_t(top)] = to_lv(d);
       visit(top, cycle);
       return sol[std::size_t(top)];
@@ -481,7 +531,7 @@ namespace c09
     std::vector<ExpEv> ev; std::vector<LD> evdev; LV res; LD resdev = 0, maxnorm = 0; std::vector<LD> omegas;
   };
   inline Reference make_reference(const HierSpec& H, int top, int crs, int cycle, int cgc, const std::vector<double>& d,
-                                  std::uint64_t seed, bool keep_inputs = true)
+                                  std::uint64_t seed, bool keep_inputs = true, bool exact_zeros = false, bool exact_first_rest = false)
   {
     Reference R;
     Model m0(H, top, crs, cycle, cgc, 0.0L, seed); m0.keep_inputs = keep_inputs;
@@ -493,6 +543,7 @@ namespace c09
     {
       Model mp(H, top, crs, cycle, cgc, eta, vh::mix64(seed + std::uint64_t(rr)));
       mp.floor_abs = std::ldexp(R.maxnorm, -44);
+      mp.exact_zeros = exact_zeros; mp.exact_first_rest = exact_first_rest;
       LV rp = mp.run(d);
       R.resdev = std::max(R.resdev, dist2(rp, R.res));
       for(std::size_t i = 0; i < R.ev.size() && i < mp.ev.size(); ++i) R.evdev[i] = std::max(R.evdev[i], dist2(mp.ev[i].in, R.ev[i].in));
